@@ -97,6 +97,22 @@ func installC04Hooks(ch *chaos) {
 	ch.c.AddMonitor(&c04AckMon{ch: ch, st: st})
 }
 
+// ackAfterFence: a client write must not be acknowledged by a node that has already answered NewTerm of a later term
+// (the answer is given with the quorum tracker closed; an acknowledgement that still completes afterwards was
+// applied and confirmed by a fenced node).
+func ackAfterFence(ch *chaos, node string, termAtCall int64, what string) {
+	st := c04
+	if st == nil || ch.prop != "C04" {
+		return
+	}
+	st.mu.Lock()
+	f, ok := st.fences[node]
+	st.mu.Unlock()
+	if ok && f.term > termAtCall {
+		ch.viol("C04", "write-acknowledged-by-a-fenced-node", fmt.Sprintf("%s had answered NewTerm(%d) (head offset %d); a write sent to it in term %d (%s) was applied and acknowledged afterwards", node, f.term, f.head.Offset, termAtCall, what))
+	}
+}
+
 type c04AckMon struct {
 	ch *chaos
 	st *c04state
